@@ -16,17 +16,17 @@ RULE = (
     'Scenes: K 2..3 sources disjoint in time-frequency (one source per '
     'frame, every source active in >= 15 % of the frames), D K+1..8, F in '
     '{33, 65, 257}, T 60..200, random complex steering vectors per '
-    'frequency, sensor noise 40..60 dB below the sources; start = true '
+    'frequency (bins with pairwise |cos| > 0.95 redrawn: separability), sensor noise 40..60 dB below the sources; start = true '
     'partition blurred (beta <= 0.3) and permuted per frequency with a '
     'permutation field inside the domain of C16 (>= 70 % of the first DHTV '
-    'segment in one order, arbitrary elsewhere); cACGMM and cWMM; 10 '
-    'interference cancelling beamformer names. Thresholds of the property: '
+    'segment in one order, arbitrary elsewhere); cACGMM and cWMM; 9 '
+    'interference cancelling beamformer names (Souden MVDR, GEV with/without BAN, rank-one variants, WMWF - exactly the families the property lists). Thresholds of the property: '
     'arg-max accuracy >= 99 %, SIR >= 30 dB for every source. Non-trivial: '
     'a non-constant permutation field. Distinct = distinct recorded choice '
     'sequence.'
 )
 
-NAMES = ['mvdr_souden', 'mvdr_souden+ban', 'gev', 'gev+ban',
+NAMES = ['mvdr_souden', 'gev', 'gev+ban',
          'rank1_pca+mvdr_souden', 'rank1_gev+mvdr_souden', 'rank1_pca+gev',
          'wmwf', 'rank1_pca+wmwf', 'rank1_gev+wmwf']
 
@@ -46,6 +46,16 @@ def make_scene(d, rng):
         if np.min(np.bincount(lab, minlength=K)) >= 0.15 * T:
             break
     steer = gen.cnormal(rng, (K, F, D))
+    # "separable scene": no bin in which two steering vectors are (nearly)
+    # collinear - such a bin cannot be separated spatially by any method;
+    # bins with pairwise |cos| > 0.95 are redrawn
+    for _ in range(100):
+        u = gen.unit(steer)
+        g = np.abs(np.einsum('kfd,jfd->fkj', u.conj(), u)) - np.eye(K)
+        bad = np.where(g.max(axis=(1, 2)) > 0.95)[0]
+        if len(bad) == 0:
+            break
+        steer[:, bad, :] = gen.cnormal(rng, (K, len(bad), D))
     src = gen.cnormal(rng, (K, F, T)) * (0.3 + rng.uniform(size=(K, F, T)))
     src = src * (lab[None, None, :] == np.arange(K)[:, None, None])
     images = steer[:, :, :, None] * src[:, :, None, :]       # (K, F, D, T)
@@ -159,6 +169,7 @@ def pipeline(d, ctx):
         require(np.all(np.isfinite(sir) | (sir == np.inf)) and sir.min() >= 30.0,
                 'output-sir-below-30-db',
                 f'{name}: SIR per source {np.round(sir, 1).tolist()} dB '
-                f'({model_kind} K={K} D={D} F={F} T={T})', name=name)
+                f'({model_kind} K={K} D={D} F={F} T={T} accuracy={acc:.4f})',
+                name=name, model=model_kind, spare_sensors=min(D - K, 2))
     ctx.describe(accuracy=acc, worst_sir=min(worst.values()))
     ctx.nontrivial(not all(f == field[0] for f in field))
